@@ -20,6 +20,66 @@ def bound_of(name):
     return BOUND.get(name, DEFAULT_BOUND)
 
 
+# Length / count / offset fields of the fixed-header formats (offset, width,
+# byte order), from the format specifications - not only the fields the
+# shipped inspectors read today.
+FIELD_TABLES = {
+    'qcow2': ('>', [(8, 8), (16, 4), (20, 4), (24, 8), (32, 4), (36, 4),
+                    (40, 8), (48, 8), (56, 4), (60, 4), (64, 8), (96, 4),
+                    (100, 4)]),
+    'qed': ('<', [(4, 4), (8, 4), (12, 4), (40, 8), (48, 8), (56, 4),
+                  (60, 4)]),
+    'vhd': ('>', [(16, 8), (40, 8), (48, 8), (56, 4), (60, 4)]),
+    'vdi': ('<', [(0x48, 4), (0x154, 4), (0x158, 4), (0x170, 8), (0x178, 4),
+                  (0x180, 4), (0x184, 4)]),
+    'luks': ('>', [(104, 4), (108, 4)] +
+             [(208 + 48 * i + o, 4) for i in range(8) for o in (0, 40, 44)]),
+    'gpt': ('<', [(446 + 16 * i + o, 4) for i in range(4) for o in (8, 12)]),
+    'iso': ('<', [(32768 + 80, 4), (32768 + 128, 2), (32768 + 132, 4),
+                  (32768 + 140, 4), (32768 + 158, 4), (32768 + 166, 4)]),
+}
+FIELD_VALUES = {
+    2: (0, 1, 512, 2048, 32768, 65535),
+    4: (0, 1, 9, 12, 16, 20, 21, 22, 31, 64, 104, 112, 512, 1023, 1024,
+        65535, 1 << 19, (1 << 19) + 1, 1 << 20, 1 << 21, 1 << 31,
+        (1 << 32) - 1),
+    8: (0, 8, 72, 104, 112, 512, 4096, 65535, 65536, 1 << 20,
+        (1 << 21) - 8, 1 << 21, 1 << 32, 1 << 63, (1 << 64) - 1),
+}
+
+
+# per-field candidates where the valid range of a field is known: its ends,
+# one beyond, and a typical value
+FIELD_SPECIFIC = {
+    ('qcow2', 8): (0, 8, 104, 112, 512, 4096, 65536, 1 << 20, (1 << 21) - 8,
+                   1 << 21, 1 << 32, (1 << 64) - 1),
+    ('qcow2', 16): (0, 1, 1023, 1024, 65535, 1 << 19, (1 << 19) + 1, 1 << 20,
+                    (1 << 21) - 112, 1 << 21, (1 << 32) - 1),
+    ('qcow2', 20): (0, 8, 9, 16, 20, 21, 22, (1 << 32) - 1),
+    ('qed', 4): (0, 4096, 65536, 1 << 26, (1 << 26) + 1, (1 << 32) - 1),
+    ('vdi', 0x178): (0, 512, 1 << 20, 1 << 21, (1 << 32) - 1),
+    ('luks', 104): (0, 1, 8, 4096, 1 << 31, (1 << 32) - 1),
+}
+
+
+def gen_fields(rng):
+    layout = core.weighted(rng, [(k, 3 if k == 'qcow2' else 1)
+                                 for k in sorted(FIELD_TABLES)])
+    p = G.GEN[layout](rng)
+    p['total'] = rng.choice((MI + 5, 2 * MI, 3 * MI))
+    if layout == 'qcow2':
+        p.pop('hdr_rand', None)
+    order, table = FIELD_TABLES[layout]
+    k = len(table) if rng.random() < 0.5 else rng.randint(1, len(table))
+    muts = []
+    for off, width in rng.sample(table, k):
+        v = rng.choice(FIELD_SPECIFIC.get((layout, off)) or
+                       FIELD_VALUES[width])
+        muts.append([off, v.to_bytes(width, 'big' if order == '>'
+                                     else 'little').hex()])
+    return {'layout': layout, 'p': p, 'mut': sorted(muts)}
+
+
 TILES = [
     # (unit, period, first offset, leading signatures)
     ('iso:0:BEA01', 2048, 32 * KI, []), ('iso:0:BEA01', 2048, 34 * KI, ['iso']),
@@ -41,7 +101,9 @@ TILES = [
 def gen_hostile(rng):
     kind = core.weighted(rng, [('vmdk', 6), ('vhdx', 6), ('text', 2),
                                ('random', 1), ('valid', 2), ('mutated', 2),
-                               ('tiled', 4)])
+                               ('tiled', 4), ('fields', 5)])
+    if kind == 'fields':
+        return kind, gen_fields(rng)
     if kind == 'tiled':
         # one structural unit of some format repeated to the end of a long
         # stream: whatever an inspector follows (descriptor sequences, table
@@ -67,6 +129,10 @@ def gen_hostile(rng):
             p['desc_pad'] = 'text'
         p['data_after'] = rng.choice((0, 70000, MI, 2 * MI))
         p['fill'] = rng.choice(('zero', 'text', 'inc'))
+        if rng.random() < 0.3:
+            # the descriptor is announced somewhere else
+            p['desc_sec'] = rng.choice((0, 2, 3, 2048, 1 << 40,
+                                        (1 << 64) - 1))
         # every other offset / size field of the sparse header, too
         if rng.random() < 0.5:
             hv = (0, 1, 2, 3, 1 << 31, 1 << 32, (1 << 55) + 1, 1 << 63,
@@ -130,7 +196,9 @@ class C05(Check):
     RULE = ('each run: one multi-MiB stream (VMDK with hostile descriptor '
             'sector counts and the footer flag, VHDX with hostile table '
             'counts / item lengths / region lengths, text, random, valid and '
-            'field-maximised images, one structural unit of a format '
+            'field-maximised images, every length/count/offset field of the '
+            'fixed-header formats (from their specifications) driven over '
+            'boundary and plausible mid-range values, one structural unit of a format '
             'repeated to the end of the stream) x 2-3 chunk schedules x inspectors; '
             'retained bytes checked after every chunk and after finish(). '
             'distinct = distinct (content kind, hostile parameter values, '
@@ -141,7 +209,7 @@ class C05(Check):
     ASSUMPTIONS = ['context_info reports what the inspector retains (the '
                    'property is stated in terms of it)']
     FAULT_KINDS = ('hostile_field_value', 'endless_structure_sequence',
-                   'inspector_error_genuine',
+                   'inspector_error_genuine', 'fed_after_error',
                    'giant_single_chunk', 'empty_chunk')
     PROBES = ('vmdk_descriptor_at_cap', 'vhdx_item_length_clamped',
               'retained_over_256KiB', 'retained_over_1MiB',
@@ -168,7 +236,9 @@ class C05(Check):
             name, r = streams.gen_schedule(srng, n, info['boundaries'],
                                            family=fam, max_chunks=3000)
             scheds.append({'fam': name, 'rle': r})
-        return {'content': rec, 'kind': kind, 'scheds': scheds}
+        return {'content': rec, 'kind': kind, 'scheds': scheds,
+                # the caller keeps presenting the stream after an error
+                'feed_after_error': st('config').random() < 0.3}
 
     def execute(self, case):
         log = core.EventLog()
@@ -182,13 +252,14 @@ class C05(Check):
             d[k] = d.get(k, 0) + v
         if case.get('kind') == 'tiled':
             bump(fa, 'endless_structure_sequence')
-        if case.get('kind') in ('vmdk', 'vhdx', 'mutated'):
+        if case.get('kind') in ('vmdk', 'vhdx', 'mutated', 'fields'):
             bump(fa, 'hostile_field_value')
         if n > 4 * MI:
             bump(pr, 'stream_over_4MiB')
         viols = []
         p = case['content'].get('p') or {}
-        hostile = [p.get(k) for k in ('desc_num', 'r_count', 'm_count',
+        hostile = [case['content'].get('mut') if case.get('kind') == 'fields'
+                   else None] + [p.get(k) for k in ('desc_num', 'r_count', 'm_count',
                                       'item_length', 'meta_len', 'footer',
                                       'item_offset', 'unit', 'period',
                                       'gd_offset', 'rgd_offset', 'grain')]
@@ -213,7 +284,11 @@ class C05(Check):
                          ('gpt', 'qcow2', 'vhd', 'qed', 'vdi'))
             for name in names:
                 r = imgsim.drive_bare(name, data, sizes, watch_regions=False,
-                                      mem_bound=bound_of(name))
+                                      mem_bound=bound_of(name),
+                                      feed_after_error=bool(
+                                          case.get('feed_after_error')))
+                if r['error'] and case.get('feed_after_error'):
+                    bump(fa, 'fed_after_error')
                 bump(stats['sim'], 'bytes', n)
                 bump(stats['sim'], 'chunks', len(sizes))
                 if r['error']:
@@ -251,6 +326,10 @@ class C05(Check):
         return {'violations': uniq, 'digest': log.digest(), 'stats': stats}
 
     def reducers(self, case):
+        if case.get('feed_after_error'):
+            c = copy.deepcopy(case)
+            c['feed_after_error'] = False
+            yield c
         if len(case['scheds']) > 1:
             for j in range(len(case['scheds'])):
                 c = copy.deepcopy(case)
